@@ -117,14 +117,16 @@ O2 == O1 + NMalformed
 O3 == O2 + NFields
 O4 == O3 + 2
 O5 == O4 + NEveryChar
-Count == O5 + NBadPresence
+O6 == O5 + NBadPresence
+Count == O6 + NDup
 ItemAt(g) ==
   IF g <= O1 THEN IntDocAt(g)
   ELSE IF g <= O2 THEN MalformedAt(g - O1)
   ELSE IF g <= O3 THEN FieldAt(g - O2)
   ELSE IF g <= O4 THEN NullChainAt(g - O3)
   ELSE IF g <= O5 THEN EveryCharAt(g - O4)
-  ELSE BadPresenceAt(g - O5)
+  ELSE IF g <= O6 THEN BadPresenceAt(g - O5)
+  ELSE DupAt(g - O6)
 Histories == IF "VERIF_TIER" \in DOMAIN IOEnv /\ IOEnv.VERIF_TIER = "thorough" THEN 300 ELSE 40
 VARIABLE n
 INSTANCE GenBase
